@@ -91,6 +91,7 @@ def work_model(task):
     seed, start, count = task
     ev = Evidence()
     drv = Driver()
+    nshrunk = 0
     try:
         for i in range(start, start + count):
             rnd = random.Random((seed << 32) ^ (i * 2654435761 & 0xffffffff) ^ 0xC10)
@@ -116,11 +117,14 @@ def work_model(task):
 
                 def fails(n):
                     try:
-                        oo = run_case(drv, n, (), limit=6000, steps=300000)
+                        oo = run_case(drv, n, (), limit=2000, steps=60000)
                     except (DriverCrash, DriverTimeout):
                         return False
                     return oo.status == "violation" and oo.reason.split(":")[0] == head
-                small = shrink(node, fails, 800)
+                # shrink the first few failures of this worker only: on a badly broken tree everything fails
+                # and each shrinking step may run into the step budget
+                nshrunk += 1
+                small = shrink(node, fails, 300) if nshrunk <= 2 else node
                 ev.violations.append({"property": PID, "query": render(small), "ast": repr(small), "reason": o.reason,
                                       "signature": "C10:" + render(small)[:150]})
                 continue
